@@ -634,13 +634,20 @@ def replay(path):
     cg = {k: [list(a) for a in v] for k, v in w["grammar"].items()}
     if w["what"].startswith("create_fixed_length_tree"):
         if "choices" in w:
+            # re-run the implementation with the recorded choices (then the run's PRNG), under the call budget:
+            # the search need not terminate
             it = iter(w["choices"])
-            orig = random.choice
-            random.choice = lambda seq: seq[next(it)]
-            try:
-                t = S.create_fixed_length_tree(w["start"], cg, w["n"])
-            finally:
-                random.choice = orig
+            fallback = random.Random(d.get("seed", 0))
+
+            class _R:
+                def randrange(self, k):
+                    i = next(it, None)
+                    return i if i is not None and i < k else fallback.randrange(k)
+            kind, t, _ = run_cflt(cg, w["start"], w["n"], _R(), 2000)
+            if kind == "budget":
+                print("impl: no result within the call budget (search does not terminate here)"); return 0
+            if kind == "raise":
+                print("impl: raised", t); return 0
         else:
             t = tree_from_json(w["impl"][1])
         ok = t is None or ref_meets_length(cg, w["start"], w["n"], t)
